@@ -20,6 +20,7 @@ Proof. exact validate_with_key_cache. Qed.
 Print Assumptions C05_cache_invariant.
 Theorem C05_cache_empty : forall net cmts, CacheOK net cmts cache_empty.
 Proof. exact CacheOK_empty. Qed.
+Print Assumptions C05_cache_empty.
 
 (* the verdict is exactly the rule set `accepts`: accepted <-> rules hold; a rule-abiding message is never branded invalid *)
 Theorem C05_verdict : forall net cmts cm c partial m,
